@@ -62,6 +62,7 @@ def bounds(tier):
     b["vanishing_load_std_ladder"] = VANISH
     b["arbitrary_load_grid_points"] = GRIDS
     b["ladder_z0"] = Z0S + Z0S_TAIL
+    b["call_histories"] = {"depth": HIST_DEPTH[tier], "objects (strength median, std)": _H_OBJ, "operations": ["%s.%s" % o for o in HIST_OPS]}
     b["lower_tail_relative_tolerance"] = {"pf_norm_load (1e-12 <= Phi < 1e-6)": TAIL_REL, "pf_arbitrary_load finest rung": LADDER_TAIL_REL}
     return b
 
@@ -77,7 +78,8 @@ def shards(tier):
                itertools.product(lat["strength_std"], lat["load_std"], lat["strength_median"])]
     vanish = [{"part": "vanish", "sm": sm, "ss": ss} for ss, sm in itertools.product(lat["strength_std"], lat["strength_median"])]
     return ([("scan", b) for b in chunked(scans, 4)] + [("ladder", b) for b in chunked(ladders, 40)]
-            + [("vanish", b) for b in chunked(vanish, 4)])
+            + [("vanish", b) for b in chunked(vanish, 4)]
+            + [("history", 1, ())] + [("history", HIST_DEPTH[tier], (i,)) for i in range(len(HIST_OPS))])
 
 
 def _tol(e):
@@ -265,8 +267,151 @@ def check_ladder(case):
     return viol, nev, tuple(out), stats
 
 
+# ------------------------------------------------------------------------------------------------- call histories
+# Every sequence of questions up to a depth on two KEPT FailureProbability objects (different strengths) with caller-owned
+# density arrays, and caller actions in between (refill the density arrays in place, overwrite the array returned last).
+# Oracle for every answer: it is the answer a fresh object gives to that question asked first (relative 1e-12; questions
+# without limits additionally within the check's tolerance of Phi(z)); argument arrays are left as they were.
+HIST_DEPTH = {"quick": 3, "thorough": 4}
+_H_OBJ = {"F0": (100.0, 0.05), "F1": (300.0, 0.2)}
+_H_Q = ("simple", "simple-array", "norm-A", "norm-B", "norm-A-lower", "norm-A-upper", "norm-A-both", "arbitrary-X", "arbitrary-Y")
+HIST_OPS = [(o, q) for o in ("F0", "F1") for q in _H_Q] + [("caller", "refill-density-arrays"), ("caller", "overwrite-last-result")]
+_H_NORM = {"norm-A": (120.0, 0.1), "norm-B": (60.0, 0.02)}
+
+
+def _h_pdf(x, mu, sd):
+    return np.exp(-0.5 * ((x - mu) / sd) ** 2) / (sd * math.sqrt(2 * math.pi))
+
+
+def _h_world():
+    from pylife.strength.failure_probability import FailureProbability
+    x = np.linspace(1.0, 3.2, 801)
+    return {"obj": {k: FailureProbability(*v) for k, v in _H_OBJ.items()},
+            "X": x.copy(), "Xp": _h_pdf(x, 2.1, 0.1), "Y": x.copy(), "Yp": _h_pdf(x, 2.4, 0.25),
+            "alt": False, "loads": np.array([80.0, 150.0, 400.0]), "held": [], "last": None}
+
+
+def _h_ask(w, o, q):
+    f = w["obj"][o]
+    if q == "simple":
+        return f.pf_simple_load(150.0)
+    if q == "simple-array":
+        return f.pf_simple_load(w["loads"])
+    if q in _H_NORM:
+        return f.pf_norm_load(*_H_NORM[q])
+    if q.startswith("norm-A-"):
+        m, sd = _H_NORM["norm-A"]
+        kw = {}
+        if q in ("norm-A-lower", "norm-A-both"):
+            kw["lower_limit"] = math.log10(m) - 0.5 * sd
+        if q in ("norm-A-upper", "norm-A-both"):
+            kw["upper_limit"] = math.log10(m) + 1.0 * sd
+        return f.pf_norm_load(m, sd, **kw)
+    return f.pf_arbitrary_load(w["X"], w["Xp"]) if q == "arbitrary-X" else f.pf_arbitrary_load(w["Y"], w["Yp"])
+
+
+def _h_step(w, oi):
+    """-> (question key or None, answer as list or None, exception or None)"""
+    o, q = HIST_OPS[oi]
+    if o == "caller":
+        if q == "refill-density-arrays":
+            w["alt"] = not w["alt"]
+            w["Xp"][:] = _h_pdf(w["X"], 2.3 if w["alt"] else 2.1, 0.1)
+            w["Yp"][:] = _h_pdf(w["Y"], 2.0 if w["alt"] else 2.4, 0.25)
+        elif w["last"] is not None and isinstance(w["held"][w["last"]][1], np.ndarray) and w["held"][w["last"]][1].ndim \
+                and w["held"][w["last"]][1].flags.writeable:
+            w["held"][w["last"]][1][...] = -1.0
+            w["held"][w["last"]][2] = w["held"][w["last"]][1].copy()
+        return None, None, None
+    try:
+        with warnings.catch_warnings():
+            warnings.simplefilter("ignore")
+            res = _h_ask(w, o, q)
+    except Exception as e:      # noqa: BLE001
+        return (oi, w["alt"] and q.startswith("arbitrary")), None, e
+    w["held"].append(["%s.%s" % (o, q), res, np.array(res, dtype=float, copy=True)])
+    w["last"] = len(w["held"]) - 1
+    return (oi, w["alt"] and q.startswith("arbitrary")), np.asarray(res, dtype=float).reshape(-1).tolist(), None
+
+
+def history_run(seq, fresh, acc=None):
+    w = _h_world()
+    for depth, oi in enumerate(seq):
+        o, q = HIST_OPS[oi]
+        here = "%s.%s" % (o, q)
+        snap = [w[k].copy() for k in ("X", "Xp", "Y", "Yp", "loads")]
+        key, got, exc = _h_step(w, oi)
+        if key is None:
+            continue
+        if acc is not None:
+            acc.transitions += 1
+            acc.evaluations += 1
+        if exc is not None:
+            return [("C15/history/%s-raises-%s" % (q, type(exc).__name__), {"at": depth, "message": str(exc)[:160]})]
+        if any(not np.array_equal(a, w[k]) for a, k in zip(snap, ("X", "Xp", "Y", "Yp", "loads"))):
+            return [("C15/history/%s-changes-the-callers-arrays" % q, {"at": depth})]
+        want = fresh[key]
+        if len(got) != len(want) or any(not abs(a - b) <= 1e-12 * max(abs(b), 1e-300) + 1e-300 for a, b in zip(got, want)):
+            return [("C15/history/%s-answer-depends-on-what-was-asked-before" % q,
+                     {"at": depth, "question": here, "got": got, "fresh_object_asked_first": want})]
+        for name, obj, snapres in w["held"][:-1]:
+            if isinstance(obj, np.ndarray) and not np.array_equal(obj, snapres):
+                return [("C15/history/result-held-by-the-caller-changed-by-a-later-call", {"at": depth, "held": name, "later_call": here})]
+    return []
+
+
+def _h_fresh():
+    """every question asked first on a fresh world (both fillings of the density arrays) + the analytic value where there is one"""
+    fresh, viol = {}, []
+    for alt in (False, True):
+        for oi, (o, q) in enumerate(HIST_OPS):
+            if o == "caller" or (alt and not q.startswith("arbitrary")):
+                continue
+            w = _h_world()
+            if alt:
+                _h_step(w, HIST_OPS.index(("caller", "refill-density-arrays")))
+            key, got, exc = _h_step(w, oi)
+            if exc is not None:
+                viol.append(("C15/history/%s-raises-%s" % (q, type(exc).__name__), {"message": str(exc)[:160]}))
+                got = [math.nan]
+            fresh[key] = got
+            sm, ss = _H_OBJ[o]
+            if q in _H_NORM and exc is None:
+                m, sd = _H_NORM[q]
+                e = _N01.cdf((math.log10(m) - math.log10(sm)) / math.hypot(ss, sd))
+                if not abs(got[0] - e) <= _tol(e):
+                    viol.append(("C15/history/%s-not-the-analytic-overlap" % q, {"object": o, "got": got[0], "expected": e}))
+            if q == "simple" and exc is None:
+                e = _N01.cdf((math.log10(150.0) - math.log10(sm)) / ss)
+                if not abs(got[0] - e) <= 1e-12:
+                    viol.append(("C15/history/simple-not-the-strength-cdf", {"object": o, "got": got[0], "expected": e}))
+    return fresh, viol
+
+
+def run_history(shard, acc):
+    _, depth, prefix = shard
+    fresh, viol = _h_fresh()
+    for key, detail in viol:
+        acc.violation(key, {"part": "history", "seq": []}, detail)
+    nops = range(len(HIST_OPS))
+    for d in range(max(1, len(prefix)), depth + 1):
+        for rest in itertools.product(nops, repeat=d - len(prefix)):
+            seq = tuple(prefix) + rest
+            acc.cases += 1
+            acc.max_depth = max(acc.max_depth, d)
+            if len({HIST_OPS[i][0] for i in seq}) >= 2:
+                acc.nontrivial += 1
+            for key, detail in history_run(seq, fresh, acc):
+                acc.violation(key, {"part": "history", "seq": list(seq), "ops": ["%s.%s" % HIST_OPS[i] for i in seq]}, detail)
+    acc.states += len(fresh)
+    acc.outcomes |= {hash((k, tuple(v))) for k, v in fresh.items()}
+
+
 def run_shard(shard):
     acc = Acc()
+    if shard[0] == "history":
+        run_history(shard, acc)
+        return acc
     kind, block = shard
     for case in block:
         acc.cases += 1
@@ -300,6 +445,9 @@ def run_shard(shard):
 
 
 def replay(case):
+    if case["part"] == "history":
+        fresh, viol = _h_fresh()
+        return viol + history_run(case["seq"], fresh)
     if case["part"] == "scan":
         return check_scan(case)[0]
     if case["part"] == "vanish":
